@@ -16,6 +16,11 @@ THEOREMS = [
     "JanetModel.Props.C15.unary_minus_differs",
     "JanetModel.Props.C15.rows_agree_all_or_unary_special",
     "JanetModel.Props.C15.fixed_rows_consistent",
+    "JanetModel.Spec.varop_template_correct",
+    "JanetModel.Spec.comparator_template_correct",
+    "JanetModel.Spec.generic_bytecode_correct",
+    "JanetModel.Props.C15.template_words_ok",
+    "JanetModel.Props.C15.inline_eq_generic_bytecode_partial",
     "JanetModel.Props.C15.nil_fast_paths_consistent",
     "JanetModel.Props.C15.nil_condition_value",
     "JanetModel.Props.C15.movopt_tables_sound_partial",
